@@ -11,7 +11,9 @@ Task case (JSON):
   throughput         None | {"kind": "number"|"string"|"interval", "value": x, "unit": "ops/s"|"docs/s"...}
   schedule           None | "deterministic" | "poisson"
   op_type            "sim-op" | "sim-op-completing"
-  source_size        None | n    (finite parameter source: n params() calls per client)
+  source_size        None | n | [n0, n1, ...]   (finite parameter source: n params() calls per client / n_i for client i)
+  completes_parent   the task is the completed-by task of its parallel element: its clients do not stop when "complete" is set (the
+                     first of them to finish sets it itself), they all run to their own end
   runner_completes_after  None | n
   requests           list of request specs (see sim.world), looked up by (client*stride + ordinal) % len
   stride
@@ -99,6 +101,7 @@ def build_task(spec, name="t"):
         time_period=spec.get("time_period"),
         ramp_up_time_period=spec.get("ramp_up"),
         clients=spec["clients"],
+        completes_parent=bool(spec.get("completes_parent")),
         schedule=spec.get("schedule"),
         params=params,
     )
